@@ -1,6 +1,6 @@
 //! C08 Scaling multiplies exactly the scalable amounts and nothing else.
 use crate::ctx::Ctx;
-use crate::props::c09::{amount_u, bundled_world, close, in_oracle_range, random_key, render_opt_quantity, render_value, scale_u, spec_unit, spec_value, value_parts, World};
+use crate::props::c09::{alt_world, amount_u, bundled_world, close, in_oracle_range, random_key, render_opt_quantity, render_value, scale_u, spec_unit, spec_value, value_parts, World};
 use crate::rng::Rng;
 use crate::util::{bits, guarded, panic_signature};
 use cooklang::quantity::{Quantity, QuantityValue, ScalableValue, ScaledQuantity, Value};
@@ -157,7 +157,7 @@ fn check_quantity(ctx: &mut Ctx, w: &World, input: &str, what: &str, before: &Va
             for (x, y) in pb.iter().zip(pa.iter()) {
                 // the amount of f·x in the written unit (= f · amount(x) for units without an offset)
                 let (want, got) = (amount_u(x * f, &ub), amount_u(*y, &ua));
-                if !close(want, got, scale_u(x * f, &ub), 1e-9) {
+                if !close(want, got, scale_u(x * f, &ub).max(scale_u(*y, &ua)), 1e-9) {
                     ctx.oracle_fail(input.into(), format!("{what}: {x:?} {} x {f:?} is {want:?} base units, after scaling {y:?} {} is {got:?}", ub.symbol(), ua.symbol()), format!("c08:{sig}"));
                 }
                 if ub.difference == 0.0 && ua.difference == 0.0 {
@@ -286,7 +286,7 @@ fn recipe_case(ctx: &mut Ctx, w: &World, parser: &CooklangParser, spec: &RecipeS
     let inp = format!("{input}, scale({f:?})");
     match guarded(|| parse().map(|r| r.scale(f, &w.conv))) {
         Ok(Some(after)) => {
-            ctx.case(format!("sc b scale {} {items}", bits(f)), render_scaled(&after), nontrivial, inp.clone());
+            ctx.case(format!("sc {} scale {} {items}", w.tag, bits(f)), render_scaled(&after), nontrivial, inp.clone());
             check_scaled(ctx, w, &inp, &before, &after, f);
         }
         Ok(None) => {}
@@ -299,7 +299,7 @@ fn recipe_case(ctx: &mut Ctx, w: &World, parser: &CooklangParser, spec: &RecipeS
     let inp = format!("{input}, scale_to_servings({target})");
     match guarded(|| parse().map(|r| r.scale_to_servings(target, &w.conv))) {
         Ok(Some(after)) => {
-            ctx.case(format!("sc b servings {target} {sspec} {items}"), render_scaled(&after), nontrivial, inp.clone());
+            ctx.case(format!("sc {} servings {target} {sspec} {items}", w.tag), render_scaled(&after), nontrivial, inp.clone());
             let base = servings.as_ref().and_then(|s| s.first().copied()).unwrap_or(1);
             if base > 0 && target > 0 {
                 let fs = target as f64 / base as f64;
@@ -318,7 +318,7 @@ fn recipe_case(ctx: &mut Ctx, w: &World, parser: &CooklangParser, spec: &RecipeS
     let inp = format!("{input}, default_scale()");
     match guarded(|| parse().map(|r| r.default_scale())) {
         Ok(Some(after)) => {
-            ctx.case(format!("sc b default {items}"), render_scaled_recipe(&after), nontrivial, inp.clone());
+            ctx.case(format!("sc {} default {items}", w.tag), render_scaled_recipe(&after), nontrivial, inp.clone());
             check_default(ctx, &inp, &before, &after);
         }
         Ok(None) => {}
@@ -346,13 +346,19 @@ non-trivial = the recipe has an ingredient quantity; distinct = distinct request
             ctx.count("corpus");
         } }
     }
-    // the Linear/Fixed decision on its four corners, for the model alone (the parser side is compared above)
-    let n = if ctx.thorough { 160_000 } else { 3_000 };
-    for i in 0..n {
-        let spec = recipe_spec(&mut rng, &w);
-        let f = if i % 3 == 0 { 0.05 + rng.unit_f64() * 20.0 } else { *rng.pick(&factors) };
-        let target = if rng.chance(1, 20) { 0 } else { rng.range(1, 24) as u32 };
-        let force = match rng.below(20) { 0 => Some(vec![]), 1 => Some(vec![rng.range(1, 9) as u32, 4]), _ => None };
-        recipe_case(ctx, &w, &parser, &spec, f, target, force);
+    let n = if ctx.thorough { 120_000 } else { 3_000 };
+    let mut worlds = vec![(w, parser, n)];
+    match alt_world() {
+        Some(a) => { let p = CooklangParser::new(Extensions::all(), a.conv.clone()); worlds.push((a, p, n / 3)); ctx.count("world:alternative-units-file"); }
+        None => ctx.notes.push("corpus/C09/alt_units.toml is missing or rejected by ConverterBuilder: second converter not exercised".into()),
+    }
+    for (w, parser, n) in &worlds {
+        for i in 0..*n {
+            let spec = recipe_spec(&mut rng, w);
+            let f = if i % 3 == 0 { 0.05 + rng.unit_f64() * 20.0 } else { *rng.pick(&factors) };
+            let target = if rng.chance(1, 20) { 0 } else { rng.range(1, 24) as u32 };
+            let force = match rng.below(20) { 0 => Some(vec![]), 1 => Some(vec![rng.range(1, 9) as u32, 4]), _ => None };
+            recipe_case(ctx, w, parser, &spec, f, target, force);
+        }
     }
 }
